@@ -154,6 +154,13 @@ func compRunOne(w *tr.Writer, tid int, raw json.RawMessage, c *common) error {
 				conn.Write("<handshake")
 				time.Sleep(5 * time.Millisecond)
 				conn.Close()
+			case strings.HasPrefix(cs.Reply, "hs-"):
+				// replies that begin like the handshake element but are not one
+				body := map[string]string{"hs-trunc": "<handshake>", "hs-text-close": "<handshake>ok", "hs-streamclose": "<handshake></stream:stream>",
+					"hs-badend": "<handshake></handshak>", "hs-badentity": "<handshake>&nbsp;</handshake>"}[cs.Reply]
+				conn.Write(body)
+				time.Sleep(5 * time.Millisecond)
+				conn.Close()
 			case cs.Reply == "close":
 				conn.Close()
 			case cs.Reply == "streamclose":
